@@ -52,6 +52,7 @@ from .values import (
     STRSEQ,
     STRLIST,
     TStrList,
+    TMatch,
     Frame,
     State,
     TConst,
@@ -178,6 +179,8 @@ class Engine:
         ty = v.ty
         if ty == BYTES:
             return v.z[2].z > 0
+        if isinstance(ty, TMatch):
+            return smt.bool_fn(f"re.match({v.z[0]!r})")(v.z[1])
         if ty == BOOL:
             return v.z
         if ty == INT:
@@ -375,10 +378,31 @@ class Engine:
         raise OutOfSubset(f"generator expression at L{e.lineno}")
 
     def ev_JoinedStr(self, e, st, exc):
-        # f-string: evaluate the embedded expressions for their safety obligations only
         inner = [v.value for v in e.values if isinstance(v, ast.FormattedValue)]
+        plain = all(v.format_spec is None and v.conversion == -1 for v in e.values if isinstance(v, ast.FormattedValue))
         out = []
         has_text = any(isinstance(v, ast.Constant) and v.value for v in e.values)
+        if plain:
+            # f"{a}:{b}" without format specs: exactly the concatenation of str() of the parts (when those
+            # are strings or ints; anything else makes the text opaque)
+            for s, vals in self.ev_seq(inner, st, exc):
+                if all(v.ty in (STR, INT) for v in vals):
+                    it = iter(vals)
+                    parts = []
+                    for piece in e.values:
+                        if isinstance(piece, ast.Constant):
+                            parts.append(z3.StringVal(piece.value))
+                        else:
+                            v = next(it)
+                            parts.append(v.z if v.ty == STR else int_to_str(v.z))
+                    out.append((s, mk_str(parts[0] if len(parts) == 1 else z3.Concat(*parts))))
+                else:
+                    r = smt.fresh("fstr", smt.Str)
+                    if has_text:
+                        s.assume(z3.Length(r) > 0)
+                    out.append((s, Val(STR, r)))
+            return out
+        # f-string with format specs: evaluate the embedded expressions for their safety obligations only
         for s, _ in self.ev_seq(inner, st, exc):
             r = smt.fresh("fstr", smt.Str)
             if has_text:
@@ -633,6 +657,10 @@ class Engine:
             v = unpack(fty, z3.simplify(m[recv.z]))
             self.note_list(s, v)
             return [(s, v)]
+        if isinstance(ty, TConst) and recv.z[0] == "pydict":
+            return [(s, Val(TFunc(), ("method", recv, attr)))]
+        if isinstance(ty, TMatch):
+            return [(s, Val(TFunc(), ("method", recv, attr)))]
         if isinstance(ty, TConst):
             kind = recv.z[0]
             if kind == "module":
@@ -646,7 +674,7 @@ class Engine:
                     if key in mi.functions:
                         return [(s, Val(TConst(), ("func", f"{modname}.{key}")))]
                 raise OutOfSubset(f"class attribute {key}")
-        if isinstance(ty, (TList, TDict, TSet)) or ty in (STR, STRSEQ, STRLIST):
+        if isinstance(ty, (TList, TDict, TSet)) or ty in (STR, STRSEQ, STRLIST) or (isinstance(ty, TConst) and recv.z[0] == "pydict"):
             return [(s, Val(TFunc(), ("method", recv, attr)))]
         if isinstance(ty, TRef) and False:
             pass
@@ -745,6 +773,11 @@ class Engine:
         ty = c.ty
         if ty == BYTES:
             raise OutOfSubset(f"subscript of an abstract bytes value at L{line}")
+        if ty in (STRLIST, STRSEQ) and i.ty == INT:
+            n = z3.Length(c.z)
+            k = self.norm_index(s, i.z, n)
+            self.guard(s, exc, "IndexError", z3.And(0 <= k, k < n), "sequence index", line)
+            return [(s, mk_str(c.z[k]))]
         if isinstance(ty, TList) and i.ty == INT:
             lv = ListView(s, c.z, ty.elem)
             n = lv.len
@@ -791,6 +824,14 @@ class Engine:
 
     def slice(self, s, c, lo, hi, step, line):
         ty = c.ty
+        if ty in (STRLIST, STRSEQ) and hi is None and step is None and lo is not None:
+            # xs[k:] with a non-negative constant k
+            kz = z3.simplify(lo.z)
+            if z3.is_int_value(kz) and kz.as_long() >= 0:
+                n = z3.Length(c.z)
+                k = kz.as_long()
+                return Val(ty, z3.If(n <= k, z3.Empty(smt.StrSeq), z3.SubSeq(c.z, k, n - k)))
+            raise OutOfSubset("slice of a str sequence")
         if not isinstance(ty, TList):
             raise OutOfSubset(f"slice of {ty} at L{line}")
         lv = ListView(s, c.z, ty.elem)
@@ -868,11 +909,16 @@ class Engine:
         tgt = getattr(node, "_pyvc_target", None)
         if tgt and tgt in lt:
             return lt[tgt]
+        if getattr(node, "_pyvc_type", None) is not None:
+            return node._pyvc_type
         return default
 
     def ev_Dict(self, e, st, exc):
         if e.keys:
-            raise OutOfSubset("dict display with entries")
+            try:
+                return [(st, self.literal(e))]
+            except (ValueError, OutOfSubset):
+                raise OutOfSubset("dict display with non-constant entries")
         ty = self.hint_type(e, None)
         if ty is None:
             raise OutOfSubset("untyped empty dict")
@@ -1018,6 +1064,14 @@ class Engine:
             return v
         if ty == REAL and v.ty == INT:
             return Val(REAL, z3.ToReal(v.z))
+        if ty == INT and v.ty == STR and what.split(".")[-1] in INT_COERCING_PARAMS:
+            # the callee applies int() to this argument: succeeds on decimal strings (sufficient condition)
+            if exc is None:
+                raise OutOfSubset(f"argument {what}: str where int expected at L{line}")
+            self.guard(s, exc, "ValueError", is_decimal(v.z), f"int() of {what}", line)
+            return mk_int(z3.StrToInt(v.z))
+        if ty == STRSEQ and v.ty == STRLIST:
+            return Val(STRSEQ, v.z)
         if ty == STRSEQ and isinstance(v.ty, TTuple):
             seq = z3.Empty(smt.StrSeq)
             for x in v.z:
@@ -1291,7 +1345,7 @@ class Engine:
                 return [(s, mk_int(ListView(s, x.z, x.ty.elem).len))]
             if isinstance(x.ty, TTuple):
                 return [(s, mk_int(len(x.z)))]
-            if x.ty in (STR, STRSEQ):
+            if x.ty in (STR, STRSEQ, STRLIST):
                 return [(s, mk_int(z3.Length(x.z)))]
             if x.ty == BYTES:
                 return [(s, x.z[2])]
@@ -1339,6 +1393,8 @@ class Engine:
             raise OutOfSubset("float() of non-number")
         if name == "tuple" and not pos:
             return [(s, Val(TTuple([]), ()))]
+        if name == "tuple" and len(pos) == 1 and pos[0].ty in (STRLIST, STRSEQ):
+            return [(s, Val(STRSEQ, pos[0].z))]
         if name == "sorted":
             return self.builtin_sorted(s, pos, kw, exc, node)
         raise OutOfSubset(f"builtin {name} at L{line}")
@@ -1441,6 +1497,11 @@ class Engine:
         line = node.lineno
         if mod == "logging" and name in ("info", "debug", "warning", "error"):
             return [(s, NONE_VAL)]
+        if mod == "re" and name in ("match", "fullmatch", "search") and len(pos) == 2 and pos[1].ty == STR:
+            pz = z3.simplify(pos[0].z)
+            if not z3.is_string_value(pz):
+                raise OutOfSubset("re.match with a non-literal pattern")
+            return [(s, Val(TMatch(), (f"{name}:{pz.as_string()}", pos[1].z)))]
         if mod == "math" and name == "floor":
             (x,) = pos
             if x.ty == REAL:
@@ -1563,12 +1624,36 @@ class Engine:
             d = recv.z[1]
             keys = list(d)
             vals = [self.py_const(d[k]) for k in keys]
+            if len(pos) == 2:
+                if pos[1].ty != vals[0].ty:
+                    raise OutOfSubset("dict.get default of another type")
+                r = pos[1].z
+                for k, v in zip(reversed(keys), reversed(vals)):
+                    r = z3.If(self.eq(s, pos[0], self.py_const(k)), pack(v), r)
+                return [(s, Val(vals[0].ty, r))]
             rty = TOpt(vals[0].ty)
             S = rty.sort()
             r = S.none
             for k, v in zip(reversed(keys), reversed(vals)):
                 r = z3.If(self.eq(s, pos[0], self.py_const(k)), S.some(pack(v)), r)
             return [(s, Val(rty, r))]
+        if isinstance(ty, TMatch) and name == "group" and len(pos) == 1:
+            kz = z3.simplify(pos[0].z)
+            if not z3.is_int_value(kz):
+                raise OutOfSubset("match.group with a symbolic index")
+            return [(s, mk_str(smt.str_fn(f"re.group({recv.z[0]!r},{kz.as_long()})")(recv.z[1])))]
+        if ty == STR and name == "startswith" and len(pos) == 1 and pos[0].ty == STR:
+            return [(s, mk_bool(z3.PrefixOf(pos[0].z, recv.z)))]
+        if ty == STR and name == "translate" and len(pos) == 1 and isinstance(pos[0].ty, TConst) and pos[0].z[0] == "strtable":
+            return [(s, mk_str(smt.str_fn(pos[0].z[1])(recv.z)))]
+        if ty == STR and name in ("rstrip", "split", "lower") and all(isinstance(z3.simplify(a.z), z3.SeqRef) and z3.is_string_value(z3.simplify(a.z)) for a in pos):
+            # lexing helpers: uninterpreted functions named after the call (their relation to "\t".join is a
+            # lexing axiom, see specs/parser.py)
+            arg = "|".join(z3.simplify(a.z).as_string() for a in pos)
+            fname = f"str.{name}({arg!r})"
+            if name == "split":
+                return [(s, Val(STRLIST, smt.seq_fn(fname)(recv.z)))]
+            return [(s, mk_str(smt.str_fn(fname)(recv.z)))]
         raise OutOfSubset(f"method {name} of {ty} at L{line}")
 
     def genexp_builtin(self, e, st, exc):
@@ -1689,6 +1774,14 @@ class Engine:
         for t in stmt.targets:
             if isinstance(t, ast.Name) and isinstance(stmt.value, (ast.List, ast.Dict)):
                 stmt.value._pyvc_target = t.id
+            if isinstance(t, ast.Attribute) and isinstance(t.value, ast.Name):
+                # empty displays assigned to a field take the field's declared type
+                recv = st.lookup(t.value.id)
+                if recv is not None and isinstance(recv.ty, TRef) and field_owner(recv.ty.cls, t.attr):
+                    fty = field_map(st, recv.ty.cls, t.attr)[2]
+                    for sub in ast.walk(stmt.value):
+                        if isinstance(sub, (ast.List, ast.Dict)) and not getattr(sub, "elts", getattr(sub, "keys", None)):
+                            sub._pyvc_type = fty
         outs = []
         for s, v in self.ev(stmt.value, st, exc):
             states = [s]
@@ -1987,6 +2080,11 @@ class Engine:
             raise SpecInapplicable(f"loop #{ordinal}: expected a {spec.kind} loop")
         if spec.iter_src is not None and spec.iter_src != (fp[2]):
             raise SpecInapplicable(f"loop #{ordinal}: iterates over '{fp[2]}', spec written for '{spec.iter_src}'")
+        # locals whose declared loop type is Optional and which hold None on entry: represent them as such
+        for name, ty in (spec.types or {}).items():
+            cur = st.lookup(name)
+            if cur is not None and isinstance(ty, TOpt) and not isinstance(cur.ty, TOpt):
+                st.assign(name, Val(ty, pack(cur, ty)))
         entry = st.clone()
         e_ns = NS(entry, {})
         # 1. invariant on entry
@@ -2319,6 +2417,9 @@ def int_to_str(iz):
     """str(n) for any integer n (z3's int.to.str is defined for n >= 0 only)"""
     return z3.If(iz >= 0, z3.IntToStr(iz), z3.Concat(z3.StringVal("-"), z3.IntToStr(-iz)))
 
+
+# parameters of Fragment.__init__ / Gap.__init__ that the constructors pass through int()
+INT_COERCING_PARAMS = {"start", "end", "strand", "length"}
 
 BUILTIN_NAMES = {
     "isinstance", "len", "min", "max", "abs", "bool", "int", "str", "float", "sum", "sorted", "range",
